@@ -64,6 +64,8 @@ def show(v, depth=0):
         return v[1] + '{' + ', '.join('%s=%s' % ('.'.join(map(str, kk)), show(x, depth + 1)) for kk, x in sorted(v[2].items(), key=str)) + '}'
     if k == 'ovr':
         return show(v[1], depth + 1)
+    if k == 'pkt':
+        return 'pkt#%d' % v[1]
     if k == 'closure':
         return 'closure:' + v[1].split('::')[-2]
     if k == 'fn':
@@ -543,13 +545,9 @@ class Engine:
                     return C(v)
                 # scalar constant of ADT type (fieldless enum or newtype const)
                 if ty in self.p.adts:
-                    a = self.p.adts[ty]
-                    if a['enum']:
-                        for vi, var in enumerate(a['variants']):
-                            if int(var['discr']) == int(o['bits']) and not var['fields']:
-                                return ('adt', ty, vi, var['name'], [])
-                    elif len(a['variants'][0]['fields']) == 1:
-                        return ('adt', ty, 0, a['variants'][0]['name'], [C(int(o['bits']))])
+                    r = self.const_adt(ty, int(o['bits']))
+                    if r is not None:
+                        return r
                 return ('term', 'const:' + ty, [C(int(o['bits']))])
             if 'fn' in o:
                 return ('fn', o.get('fnres') or o['fn'], o.get('fnargs', ''))
@@ -571,6 +569,25 @@ class Engine:
             return TOP
         root, proj = self.resolve(p, fn, fid, s)
         return self.load(root, proj, s)
+
+    def const_adt(self, ty, bits, depth=0):
+        """scalar constant of a local type: fieldless enum variant or (nested) single-field newtype"""
+        if ty in INT_W:
+            return C(bits)
+        a = self.p.adts.get(ty)
+        if a is None or depth > 4:
+            return None
+        if a['enum']:
+            for vi, var in enumerate(a['variants']):
+                if int(var['discr']) == bits and not var['fields']:
+                    return ('adt', ty, vi, var['name'], [])
+            return None
+        fs = a['variants'][0]['fields']
+        if len(fs) == 1:
+            inner = self.const_adt(fs[0]['ty'], bits, depth + 1)
+            if inner is not None:
+                return ('adt', ty, 0, a['variants'][0]['name'], [inner])
+        return None
 
     def decode_bytes(self, b, ty):
         if ty in INT_W and len(b) * 8 >= INT_W[ty]:
